@@ -39,7 +39,7 @@ def fnmatch(pat, name):
     return _libc.fnmatch(pat.encode(), name.encode(), 0) == 0
 
 
-NAMES = ["a", "b", "ax", "bx", "c.o", "d.o", "pre1", "pre2", "tmp", "x"]
+NAMES = ["a", "b", "ax", "bx", "c.o", "d.o", "pre1", "pre2", "tmp", "x", ".e.o", ".x"]   # (dot files match wildcards too: flags 0)
 PATTERNS = ["*.o", "pre*", "?x", "tmp", "a", "*"]
 
 
